@@ -492,7 +492,7 @@ def run(ctx):
         types[tid] = (expr, parse_type(expr))
     rng = ctx.rng
     search = bool(ctx.broken)
-    nvals = (14 if ctx.quick else 120) * (6 if search else 1)
+    nvals = (12 if ctx.quick else 120) * (3 if search else 1)
     dist = {"ops": {}, "types": len(types), "presentations": {}, "mutations": {}, "results_ndebug": {}, "results_debug": {},
             "oracle_failures": {}, "divergences": 0, "value_bytes_max": 0}
 
@@ -558,29 +558,37 @@ def run(ctx):
     ctx.log("stage 2: %d cases" % len(cases))
 
     # ---- E-SEQ, both builds ------------------------------------------------------------------------
+    seen_keys = set()
+
     def handle(diffs, flavor, hexe, margs):
         for (ci, li, op, a, b) in diffs:
             case = cases[ci]
             oracle = "!ORACLE" in a or "<no-output" in a
+            if oracle:
+                key = classify(op, a)
+                bump(dist["oracle_failures"], key)
+                if key in seen_keys or len(seen_keys) >= 12:
+                    continue          # one replay per failing-input key is enough
+                seen_keys.add(key)
+            else:
+                dist["divergences"] += 1
+                if dist["divergences"] > 8:
+                    continue
             io, rc, err = ctx.run_lines(hexe, ["reset"] + case)
             mo, _, _ = ctx.run_lines(drv, ["reset"] + case, margs)
             text = "build=%s\n%s\n# implementation output:\n%s\n# model output:\n%s\n%s" % (
                 flavor, "\n".join(case), "\n".join("#   " + l for l in io), "\n".join("#   " + l for l in mo),
                 ("# harness stderr:\n#   " + err[-1500:].replace("\n", "\n#   ")) if rc != 0 or "crash" in a else "")
             if oracle:
-                key = classify(op, a)
-                bump(dist["oracle_failures"], key)
                 ctx.failing_input(key, text)
             else:
-                dist["divergences"] += 1
-                if dist["divergences"] <= 8:
-                    ctx.broke("correspondence", "E-SEQ c11 (%s build)" % flavor,
-                              "op %r: impl %r, model %r\n%s" % (op, a[:300], b[:300], text[:3000]))
+                ctx.broke("correspondence", "E-SEQ c11 (%s build)" % flavor,
+                          "op %r: impl %r, model %r\n%s" % (op, a[:300], b[:300], text[:3000]))
 
     def tally(hexe, margs, key):
         # result kinds of the hostile stream (error kinds hit), from the model side (cheap, no fork)
         lines = []
-        for c in cases:
+        for c in cases[:4000]:
             lines += c
         mo, _, _ = ctx.run_lines(drv, lines, margs)
         for l, o in zip(lines, mo):
